@@ -11,7 +11,7 @@ import sys
 sys.path.insert(0, os.path.dirname(os.path.abspath(__file__)))
 logging.disable(logging.CRITICAL)
 
-from haiway import State, ctx
+from haiway import Disposables, State, ctx
 from haiway.context.metrics import MetricsContext
 from haiway.context.state import StateContext
 from haiway.context.tasks import TaskGroupContext
@@ -119,8 +119,12 @@ def run_scenario(disps, body, spawned, cancel_at, outer_state=True):
         async def block():
             obs["before"] = context_now()
             try:
-                async with ctx.scope("inner", A(v=1), disposables=[Disp(i, e, x, log, lambda: obs["tasks"].append(ctx.spawn(child, "block")))
-                                                                 for i, (e, x) in enumerate(disps)]):
+                made = [Disp(i, e, x, log, lambda: obs["tasks"].append(ctx.spawn(child, "block"))) for i, (e, x) in enumerate(disps)]
+                # `disposables` is "Disposables | Iterable[Disposable] | None": every kind of iterable, in turn
+                how = (len(disps) * 3 + len(spawned) + (0 if cancel_at is None else 1)) % 6
+                given = (made, tuple(made), (d for d in made), iter(made), {k: d for k, d in enumerate(made)}.values(),
+                         Disposables(*made))[how]
+                async with ctx.scope("inner", A(v=1), disposables=given):
                     log.append(("body-start",))
                     obs["inner_seen"] = (ctx.state(A).v, [d for d in ()])
                     try:
